@@ -23,7 +23,7 @@ rm -rf $S/harness.new && mkdir -p $S/harness.new
 find $S/harness.new -name Cargo.toml | xargs sed -i "s#\"/repo/#\"$S/repo/#g"
 mkdir -p $S/harness && rsync -a --delete --exclude target $S/harness.new/ $S/harness/ && rm -rf $S/harness.new
 # seed the private target dir from the shared one the first time (saves a cold build)
-if [ ! -d $S/harness/target ] && [ -d /verif/harness/target ]; then cp -a /verif/harness/target $S/harness/target; fi
+if [ ! -d $S/harness/target ] && [ -d /verif/harness/target ]; then mkdir -p $S/harness/target; rsync -a --exclude incremental /verif/harness/target/ $S/harness/target/ || true; fi   # files of a build in flight may vanish
 cd /verif
 KV_ONLY_GROUP=1 KV_REPO=$S/repo KV_HARNESS=$S/harness KV_WORK=$S/work KV_EVIDENCE=$S/evidence CARGO_TARGET_DIR=$S/harness/target \
   ./check $PID --tier $TIER
